@@ -3,6 +3,9 @@
 //! farming token BASE, farm W with farming token LP) and the real energy factory.
 //! Serves C16.  Model: lean/MxModel/Core/ProxyDex.lean (the proxy's own bookkeeping only; whatever
 //! the proxy obtains from the callees is recorded by this harness after `->` in the op text).
+//! Besides the plain users there is one contract account (the "manager", id users+1) on the proxy's SC
+//! whitelist: ops `exitOb / claimOb / enterLOb / enterWOb <caller> <original caller> …` supply the optional
+//! original-caller argument (model: Core/ProxyDexWho.lean).
 
 use mxharness::*;
 use num_bigint::{BigInt, BigUint, Sign};
@@ -209,6 +212,12 @@ struct PxWorld {
     floors: u64,
     stray_total: BigUint,
     pending: Vec<String>,
+    /// number of plain users; `users[nplain]` (id `nplain + 1`) is the whitelisted "position manager" contract:
+    /// the only account that may supply an original caller to the proxy's farm endpoints
+    nplain: usize,
+    /// per account: energy that left the real energy entry through proxy transactions beyond the factory's own
+    /// effects (entry before + recomputed factory effects - entry after), cumulative over the history
+    ded: Vec<BigInt>,
 }
 
 include!("../proxydex/setup.rs");
